@@ -420,16 +420,16 @@ Maskable(b) == b.t \in {"s", "n"} /\ b.v # <<>>
    rewritten in it (mechanism M_DoIfOnOriginalEvent, see MaskDoIf.tla); the subset used by the driver: field
    equal / prefix / suffix / contains one-of-values (a missing field satisfies none), not, or, and.  A mask
    whose do_if does not hold for this event looks at none of its leaves.                                   *)
+FieldCmp(op, x, v) == CASE op = "equal"    -> x = v
+                        [] op = "prefix"   -> IsPrefixOf(x, v)
+                        [] op = "suffix"   -> IsSuffixOf(x, v)
+                        [] op = "contains" -> IsInfixOf(x, v)
 RECURSIVE CondHolds(_, _)
 CondHolds(ev, c) ==
   CASE c.op \in {"equal", "prefix", "suffix", "contains"} ->
          \E l \in 1..Len(ev.before) :
             /\ ev.before[l].p = c.field /\ ev.before[l].t = "s"
-            /\ \E k \in 1..Len(c.vals) :
-                 CASE c.op = "equal"    -> c.vals[k] = ev.before[l].v
-                   [] c.op = "prefix"   -> IsPrefixOf(c.vals[k], ev.before[l].v)
-                   [] c.op = "suffix"   -> IsSuffixOf(c.vals[k], ev.before[l].v)
-                   [] c.op = "contains" -> IsInfixOf(c.vals[k], ev.before[l].v)
+            /\ \E k \in 1..Len(c.vals) : FieldCmp(c.op, c.vals[k], ev.before[l].v)
     [] c.op = "not"   -> ~CondHolds(ev, c.args[1])
     [] c.op = "or"    -> \E k \in 1..Len(c.args) : CondHolds(ev, c.args[k])
     [] c.op = "and"   -> \A k \in 1..Len(c.args) : CondHolds(ev, c.args[k])
